@@ -17,6 +17,7 @@ TrStateful == {"A", "C"}
 TrEmitters == {"e1", "e2", "e3", "e4"}
 TrETyp == ("e1" :> "A") @@ ("e2" :> "A") @@ ("e3" :> "B") @@ ("e4" :> "C")
 TrNEv == [e \in TrEmitters |-> 1000000]
+TrLateEm == {}   \* runs with a late emitter are judged by the monitors only (see the harness)
 TrSubs == {"s1", "s2", "s3", "s4", "s5", "s6", "s7", "s8", "s9", "s10", "s11", "s12"}
 TrSTyps == ("s1" :> <<"A">>) @@ ("s2" :> <<"A">>) @@ ("s3" :> <<"A", "B">>) @@ ("s4" :> <<"B">>) @@
            ("s5" :> <<"A">>) @@ ("s6" :> <<"B", "A">>) @@ ("s7" :> <<"A">>) @@ ("s8" :> <<"A", "B">>) @@
@@ -47,12 +48,12 @@ TrNUnlock == IsEvent("n.unlock") /\ epc[Cur.e].n = Cur.n /\ ERel(Cur.e)
 \* the nSinks read is not logged; only its outcome is
 TrWSkip == /\ IsEvent("w.skip") /\ epc[Cur.e].k = "wcheck" /\ Finish(Cur.e)
            /\ UNCHANGED <<buslk, lock, sinks, last, nEm, nSinks, wreaders, wpend, wsinks, chan, chclosed, spc, si,
-                          async, asent, dropq, wpc, drain, got, estart, subAt, firstExp, panic>>
+                          async, asent, dropq, wpc, drain, got, estart, subAt, firstExp, panic, orph>>
 TrWRLock == /\ IsEvent("w.rlock") /\ epc[Cur.e].k = "wcheck"
             /\ wreaders' = wreaders \cup {Cur.e}
             /\ epc' = [epc EXCEPT ![Cur.e] = [k |-> "wild", n |-> @.n, i |-> 1]]
             /\ UNCHANGED <<buslk, lock, sinks, last, nEm, nSinks, wpend, wsinks, chan, chclosed, spc, si, async,
-                           asent, dropq, wpc, drain, got, estart, edone, subAt, firstExp, panic>>
+                           asent, dropq, wpc, drain, got, estart, edone, subAt, firstExp, panic, orph>>
 TrWSend == /\ IsEvent("w.send") /\ epc[Cur.e].k = "wild" /\ epc[Cur.e].i <= Len(wsinks)
            /\ wsinks[epc[Cur.e].i] = Cur.s
            /\ EWSend(Cur.e)
@@ -62,7 +63,7 @@ TrDrop == /\ IsEvent("n.drop") /\ lock[Cur.t] = "free" /\ nEm[Cur.t] = 0 /\ sink
           /\ last' = [last EXCEPT ![Cur.t] = None]
           /\ dropq' = dropq \ {Cur.t}
           /\ UNCHANGED <<buslk, lock, sinks, nEm, nSinks, wreaders, wpend, wsinks, chan, chclosed, epc, spc, si,
-                         async, asent, wpc, drain, got, estart, edone, subAt, firstExp, panic>>
+                         async, asent, wpc, drain, got, estart, edone, subAt, firstExp, panic, orph>>
 
 TrSubCall == /\ IsEvent("sub_call")
              /\ IF IsW(Cur.s) THEN wpc[Cur.s] = "init" ELSE spc[Cur.s] = "init"
@@ -83,7 +84,7 @@ TrWAddSink == /\ IsEvent("w.addsink") /\ wpc[Cur.s] = "init" /\ wreaders = {}
               /\ wpc' = [wpc EXCEPT ![Cur.s] = "ready"]
               /\ subAt' = [subAt EXCEPT ![Cur.s] = estart]
               /\ UNCHANGED <<buslk, lock, sinks, last, nEm, wreaders, wpend, chan, chclosed, epc, spc, si, async,
-                             asent, dropq, drain, got, estart, edone, firstExp, panic>>
+                             asent, dropq, drain, got, estart, edone, firstExp, panic, orph>>
 
 TrCloseCall == /\ IsEvent("close_call")
                /\ IF IsW(Cur.s) THEN WCloseStart(Cur.s) ELSE CloseStart(Cur.s)
@@ -100,7 +101,7 @@ TrCloseRet == /\ IsEvent("close_ret")
                       /\ wpc' = [wpc EXCEPT ![Cur.s] = "closed"]
                       /\ UNCHANGED <<buslk, lock, sinks, last, nEm, nSinks, wreaders, wpend, wsinks, chan,
                                      chclosed, epc, spc, si, async, asent, dropq, drain, got, estart, edone,
-                                     subAt, firstExp, panic>>
+                                     subAt, firstExp, panic, orph>>
                  ELSE (spc[Cur.s] = "closed" /\ Same)
 
 \* the reader received <<e, n>>.
@@ -127,7 +128,7 @@ TrRecv ==
                                             q[CHOOSE m \in 1..Len(q) : m \notin gone /\
                                                  Cardinality({x \in 1..m : x \notin gone}) = k]]]
   /\ UNCHANGED <<buslk, lock, sinks, last, nEm, nSinks, wreaders, wpend, wsinks, chclosed, epc, spc, si, async,
-                 asent, dropq, wpc, drain, estart, edone, subAt, firstExp, panic>>
+                 asent, dropq, wpc, drain, estart, edone, subAt, firstExp, panic, orph>>
 
 TraceNext ==
   \/ TrReset \/ TrEmitCall \/ TrEmitRet \/ TrNLock \/ TrNSend \/ TrNUnlock \/ TrWSkip \/ TrWRLock
